@@ -164,6 +164,20 @@ func c08Run(t *testing.T, in c08In, rng *vrng) c08Obs {
 				n := uint64(len(acc))
 				obs.Events = append(obs.Events, c08Ev{T: "inconsistent", Nonce: &n})
 			}
+		case "cancel":
+			// CancelTx of the transaction sent last (if any is known): whatever becomes of it, the
+			// allocator is untouched
+			if lastHash != (common.Hash{}) {
+				stub.mu.Lock()
+				stub.pendingErr, stub.fault = false, ""
+				stub.mu.Unlock()
+				ks.mu.Lock()
+				ks.failSign = false
+				ks.mu.Unlock()
+				_, _ = c.CancelTx(context.Background(), lastHash)
+				lastHash = common.Hash{}
+			}
+			obs.Events = append(obs.Events, c08Ev{T: "cancelled"})
 		case "monitor":
 			stub.mu.Lock()
 			stub.confirmed = op.C
@@ -223,6 +237,8 @@ func TestVerifC08(t *testing.T) {
 		{"cancel-between-sends", []c08Op{{T: "send", Pending: u(5)}, {T: "send", Pending: u(6)}, {T: "send", Pending: u(7), CancelBefore: true}, {T: "send", Pending: u(8)},
 			{T: "send", Pending: u(8), CancelBefore: true}, {T: "send", Pending: u(10)}}},
 		{"cancel-between-sends-lagging", []c08Op{{T: "send", Pending: u(0)}, {T: "send", Pending: u(0), CancelBefore: true}, {T: "send", Pending: u(0)}, {T: "send", Pending: u(1), CancelBefore: true}}},
+		{"cancel-op", []c08Op{{T: "send", Pending: u(5)}, {T: "cancel"}, {T: "send", Pending: u(5)}, {T: "send", Pending: u(6)}, {T: "cancel"}, {T: "cancel"}, {T: "send", Pending: u(8)},
+			{T: "restart"}, {T: "cancel"}, {T: "send", Pending: u(9)}}},
 		{"overlapping-sends", []c08Op{{T: "send", Pending: u(5), Overlap: true}, {T: "send", Pending: u(5)}, {T: "send", Pending: u(5)}}},
 		{"overlapping-sends-fresh", []c08Op{{T: "send", Pending: u(0), Overlap: true}, {T: "send", Pending: u(0)}, {T: "send", Pending: u(0), Overlap: true}, {T: "send", Pending: u(0)}}},
 		{"overlapping-after-fail", []c08Op{{T: "send", Pending: u(3)}, {T: "send", Pending: u(3), Fault: "submit"}, {T: "send", Pending: u(3), Overlap: true}, {T: "send", Pending: u(3)}, {T: "send", Pending: u(4)}}},
@@ -308,6 +324,13 @@ func TestVerifC08(t *testing.T) {
 				if rng.chance(20) {
 					tag = "random+stale-restart"
 				}
+			}
+		}
+		// cancellations as operations of their own
+		for j := 0; j < len(ops); j++ {
+			if rng.chance(5) {
+				ops = append(ops[:j+1], append([]c08Op{{T: "cancel"}}, ops[j+1:]...)...)
+				j++
 			}
 		}
 		// some sends are preceded by a cancellation of the transaction sent last
